@@ -216,6 +216,20 @@ func (fe *FnEnc) staticCall(f *ssa.Function, bindings []Val, args []Val, rt type
 	if v, ok := fe.externModel(key, f, args, rt, pos); ok {
 		return v
 	}
+	// thin contracts (opt inline=closures): helpers that are not handed a context are not looked into
+	if fe.top.ct != nil && fe.top.ct.Opts["inline"] == "closures" && bindings == nil && f.Parent() == nil {
+		takesVia := false
+		for _, via := range fe.g.db.GhostVia {
+			for _, a := range args {
+				if a.T != nil && types.TypeString(a.T, nil) == via {
+					takesVia = true
+				}
+			}
+		}
+		if !takesVia {
+			return fe.unknownCall("call of "+key+" (not inlined)", args, rt)
+		}
+	}
 	// inline
 	if f.Blocks != nil && fe.depth < maxInlineDepth && !fe.onStack(f) && fe.g.inRepo(f) {
 		n := 0
@@ -298,9 +312,11 @@ func (fe *FnEnc) inline(f *ssa.Function, bindings []Val, args []Val, rt types.Ty
 func (fe *FnEnc) unknownCall(what string, args []Val, rt types.Type) Val {
 	fe.s.note("%s in %s has no contract: results unconstrained, all heaps havocked", what, fe.fnName())
 	fe.havocAll(what)
-	// slices/maps passed by reference may be modified
+	// slices/maps (and locals whose address is passed) may be modified; heap objects are covered by havocAll
 	for _, a := range args {
-		fe.havocReachable(a)
+		if a.View != nil || a.Map != nil || (a.Addr != nil && a.Addr.Root != rootHeap) {
+			fe.havocReachable(a)
+		}
 	}
 	// ghost state carried by an argument (declared "via" its type) may change too
 	for _, gn := range sortedKeys(fe.g.db.GhostVia) {
@@ -802,10 +818,18 @@ func (fe *FnEnc) useContractFn(ct *Contract, callee *ssa.Function, args []Val, r
 	if fe.sitePrefix != "" {
 		site = fe.sitePrefix + "." + site
 	}
+	// opt weakcalls (thin contracts): a callee's precondition is not checked; its postcondition is then
+	// only assumed for calls where the precondition holds (otherwise the call just havocs its frame)
+	weak := top.ct != nil && top.ct.Opts["weakcalls"] != ""
+	var weakPre []string
 	for i, r := range ct.Requires {
 		lab := r.Label
 		if lab == "" {
 			lab = fmt.Sprint(i + 1)
+		}
+		if weak {
+			weakPre = append(weakPre, ev.evalTerm(r.E))
+			continue
 		}
 		fe.check("call.pre", site+"."+lab, ev.evalBool(r.E), ct.Name+" requires "+r.Src, pos)
 	}
@@ -926,6 +950,9 @@ func (fe *FnEnc) useContractFn(ct *Contract, callee *ssa.Function, args []Val, r
 	ev2.calleePkg = ct.PkgPath
 	for _, e := range ct.Ensures {
 		t := ev2.evalAssume(e.E)
+		if len(weakPre) > 0 {
+			t = implies(and(weakPre...), t)
+		}
 		s.assert(implies(fe.guard, t))
 	}
 	if ct.Trusted {
@@ -941,7 +968,9 @@ func (fe *FnEnc) havocLvalue(ev *Eval, cl Clause) {
 		// assigns anything: every heap object and every slice/map the caller passes may change; ghost state may not
 		fe.havocAll("assigns anything")
 		for _, a := range fe.curArgs {
-			fe.havocReachable(a)
+			if a.View != nil || a.Map != nil || (a.Addr != nil && a.Addr.Root != rootHeap) {
+				fe.havocReachable(a) // heap objects are covered by havocAll already
+			}
 		}
 		return
 	}
